@@ -73,3 +73,19 @@ Definition c18_despawn_stmt : Prop :=
   forall u s h, WInv u (t_w s) -> fits (t_w s) -> prev_live s -> prev_live (t_despawn s h).
 Definition c18_nodup_stmt : Prop :=
   forall u s, WInv u (t_w s) -> fits (t_w s) -> flushed (t_w s) -> nodup_live s.
+
+(* spawn_at (on any handle: a dead one revives its id or evicts the current holder, a live one replaces the entity's
+   components): hidden components still exist only on live entities, and the entity that now answers to [h] has
+   none, so the next track call reports it as added *)
+Definition c18_spawn_at_stmt : Prop :=
+  forall u s h b s', total_inj u -> WInv u (t_w s) -> fits (t_w s) -> bundle_ok b -> valid_entity h ->
+    t_spawn_at u s h b = Some s' -> fits (t_w s') -> prev_live s ->
+    prev_live s' /\ prev_get (to_bits h) (t_prev s') = None /\
+    (forall k, k mod W32 <> e_id h -> prev_get k (t_prev s') = prev_get k (t_prev s)).
+
+(* every other mutation (spawn, insert, remove, exchange, batches: whatever keeps live entities live, with any
+   components) leaves the hidden map alone and keeps it on live entities *)
+Definition c18_frame_stmt : Prop :=
+  forall u s w', WInv u (t_w s) -> fits (t_w s) -> WInv u w' -> fits w' -> flushed w' ->
+    (forall h l, abs (t_w s) h = Some l -> abs w' h <> None) ->
+    prev_live s -> prev_live {| t_w := w'; t_prev := t_prev s |}.
